@@ -11,7 +11,7 @@ for i in ids:
     p=props[i]
     json.dump({k:p[k] for k in ('id','title','statement','quantifier','anchors')},open(wt+'/SEED/property.json','w'),indent=1)
     prev=[]
-    for d in ('/verif/seeded/%s'%i,'/verif/seeded/%s-r2'%i,'/verif/seeded/%s-r3'%i,'/verif/seeded/%s-r4'%i):
+    for d in ('/verif/seeded/%s'%i,'/verif/seeded/%s-r2'%i,'/verif/seeded/%s-r3'%i,'/verif/seeded/%s-r4'%i,'/verif/seeded/%s-r5'%i):
         if os.path.exists(d+'/meta.json'):
             m=json.load(open(d+'/meta.json')); prev.append('- '+m.get('summary','')+' (files: '+', '.join(m.get('files_changed',[]))+')')
     t=tmpl.replace('@ID@',i)
